@@ -1,8 +1,112 @@
 (* Props/C17.v — the theorems that decide property C17.  Statements only;
    every proof is [exact <lemma>]. *)
-From CKB Require Import Structs.AList Structs.Orphan Structs.OrphanProofs Structs.Skip Structs.SkipProofs.
+From CKB Require Import Structs.AList Structs.Orphan Structs.OrphanProofs Structs.Inflight Structs.InflightProofs Structs.HeaderMap Structs.HeaderMapProofs Structs.Skip Structs.SkipProofs.
 
-(* ---- skip list ------------------------------------------------------------ *)
+(* ---- (a) orphan pool ---------------------------------------------------------
+   For every sequence of insert / remove_blocks_by_parent / clean_expired_blocks
+   (a hash determines parent and epoch; no block is its own parent), with
+   S = stored p the set of blocks the three maps hold:
+   insert adds exactly the block; a release of ph keeps exactly the blocks it
+   does not return; if ph is itself stored (not a leader) nothing is returned;
+   otherwise it returns exactly the descendants of ph in S, each once, every
+   block after its parent; expiry returns only whole-tree members below
+   leaders and keeps the rest. *)
+Theorem c17_orphan_refines : forall par ep ops,
+  (forall x, par x <> x) -> Forall (op_ok par ep) ops ->
+  let p := orun empty_pool ops in
+  (forall b, op_ok par ep (OInsert b) -> forall x, In x (stored (Orphan.insert p b)) <-> x = b \/ In x (stored p)) /\
+  (forall ph p' out, remove_blocks_by_parent p ph = (p', out) ->
+     (forall b, In b (stored p') <-> In b (stored p) /\ ~ In b out) /\
+     ((exists b, In b (stored p) /\ b_id b = ph) -> out = [] /\ p' = p) /\
+     (~ (exists b, In b (stored p) /\ b_id b = ph) ->
+        (forall b, In b out <-> descends (stored p) ph b) /\ NoDup out /\ parents_first ph out)) /\
+  (forall t p' out, clean_expired_blocks p t = (p', out) ->
+     (forall b, In b (stored p') <-> In b (stored p) /\ ~ In b out) /\
+     (forall b, In b out -> exists l, In l (leaders p) /\ descends (stored p) l b)).
+Proof. exact orphan_refines. Qed.
+
+(* leaders = parents of stored blocks that are not stored themselves, no duplicates *)
+Theorem c17_orphan_leaders_exact : forall par ep ops,
+  (forall x, par x <> x) -> Forall (op_ok par ep) ops ->
+  let p := orun empty_pool ops in
+  NoDup (leaders p) /\
+  forall l, In l (leaders p) <->
+    (exists b, In b (stored p) /\ b_parent b = l) /\ ~ (exists b, In b (stored p) /\ b_id b = l).
+Proof. exact orphan_leaders_exact. Qed.
+
+Theorem c17_orphan_example :
+  Forall (op_ok ex_par ex_ep) ex_ops /\
+  leaders (orun empty_pool ex_ops) = [7; 1; 4]%N /\
+  snd (remove_blocks_by_parent (orun empty_pool ex_ops) 1) = [mkBlk 2 1 0; mkBlk 3 2 0] /\
+  stored (fst (remove_blocks_by_parent (orun empty_pool ex_ops) 1)) = [mkBlk 8 7 0; mkBlk 5 4 0].
+Proof. exact orphan_example. Qed.
+
+(* ---- (b) in-flight table (current, repaired prune) ------------------------------ *)
+Theorem c17_inflight_single_owner : forall ops,
+  let st := irun ifb_default ops in
+  NoDup (map fst (states st)) /\
+  (forall p1 p2 b, listed st p1 b -> listed st p2 b -> p1 = p2) /\
+  (forall p d, alookup N.eqb p (scheds st) = Some d -> NoDup (hashes d)).
+Proof. exact inflight_single_owner. Qed.
+
+Theorem c17_inflight_listed_is_owned : forall ops p b,
+  listed (irun ifb_default ops) p b -> exists since, owner (irun ifb_default ops) b = Some (p, since).
+Proof. exact inflight_listed_is_owned. Qed.
+
+Theorem c17_inflight_owned_is_listed : forall ops p b since,
+  owner (irun ifb_default ops) b = Some (p, since) -> listed (irun ifb_default ops) p b.
+Proof. exact inflight_owned_is_listed. Qed.
+
+Theorem c17_inflight_release_exact : forall ops,
+  let st := irun ifb_default ops in
+  (forall now b,
+     snd (remove_by_block now b st) = is_some (owner st b) /\
+     forall x, owner (fst (remove_by_block now b st)) x = if key_eqb b x then None else owner st x) /\
+  (forall p,
+     snd (remove_by_peer p st) = length (filter (fun e => N.eqb (fst (snd e)) p) (states st)) /\
+     forall x, owner (fst (remove_by_peer p st)) x = if owned_by p (owner st x) then None else owner st x) /\
+  (forall now p b,
+     snd (Inflight.insert now p b st) = negb (is_some (owner st b)) /\
+     forall x, owner (fst (Inflight.insert now p b st)) x =
+               if negb (is_some (owner st b)) && key_eqb b x then Some (p, now) else owner st x) /\
+  (forall now tip,
+     let st' := fst (prune now tip st) in
+     let gone := snd (prune now tip st) in
+     (forall x, owner st' x = None \/ owner st' x = owner st x) /\
+     (forall x, In x (timed_out now (tip + 20) (states st)) -> owner st' x = None) /\
+     (forall x p since, owner st x = Some (p, since) -> In p gone -> owner st' x = None) /\
+     (forall p, In p gone -> alookup N.eqb p (scheds st') = None)).
+Proof. exact inflight_release_exact. Qed.
+
+(* F5: the prune before the repair; and the repaired one on the same history *)
+Theorem c17_prune_old_refuted :
+  exists ops b p since,
+    let st := irun_old ifb_default ops in
+    owner st b = Some (p, since) /\ ~ listed st p b /\
+    snd (remove_by_peer p st) = 0%nat /\
+    snd (Inflight.insert (since + 1) 3 b (fst (remove_by_peer p st))) = false.
+Proof. exact prune_old_refuted. Qed.
+
+Theorem c17_prune_fixed_on_witness :
+  let st := irun ifb_default f5_ops in
+  snd (prune 30001 0 (irun ifb_default (removelast f5_ops))) = [1%N] /\
+  owner st (4, 4)%N = None /\ owner st (6, 6)%N = Some (2, 30001)%N /\
+  snd (Inflight.insert 30002 3 (4, 4)%N st) = true.
+Proof. exact prune_fixed_on_witness. Qed.
+
+(* ---- (c) header map --------------------------------------------------------------
+   whatever the memory limit and wherever limit_memory steps (HSpill) fall,
+   get / contains_key answer like a plain map *)
+Theorem c17_headermap_refines : forall lim ops,
+  map erase (hrun (hm_empty lim) ops) = prun [] ops.
+Proof. exact headermap_refines. Qed.
+
+Theorem c17_headermap_example :
+  hrun (hm_empty 1) [HInsert 1 10; HInsert 2 20; HSpill; HInsert 1 11; HGet 1; HSpill; HContains 2; HRemove 1; HGet 1; HGet 2]%N
+  = [AIns false; AIns false; AUnit; AIns false; AGet (Some 11%N); AUnit; ACont true; AUnit; AGet None; AGet (Some 20%N)].
+Proof. exact headermap_example. Qed.
+
+(* ---- (d) skip list ------------------------------------------------------------ *)
 (* the i64 bit tricks of get_skip_height compute "clear the lowest one bit(s)"
    without overflow for every height below 2^63, and the skip height is
    strictly below the height *)
@@ -18,6 +122,17 @@ Theorem c17_skip_height_examples :
   = map Some [0; 0; 0; 1; 8; 1; 992; 2 ^ 63 - 7]%N.
 Proof. exact skip_height_examples. Qed.
 
+Redirect "out/C17.c17_orphan_refines" Print Assumptions c17_orphan_refines.
+Redirect "out/C17.c17_orphan_leaders_exact" Print Assumptions c17_orphan_leaders_exact.
+Redirect "out/C17.c17_orphan_example" Print Assumptions c17_orphan_example.
+Redirect "out/C17.c17_inflight_single_owner" Print Assumptions c17_inflight_single_owner.
+Redirect "out/C17.c17_inflight_listed_is_owned" Print Assumptions c17_inflight_listed_is_owned.
+Redirect "out/C17.c17_inflight_owned_is_listed" Print Assumptions c17_inflight_owned_is_listed.
+Redirect "out/C17.c17_inflight_release_exact" Print Assumptions c17_inflight_release_exact.
+Redirect "out/C17.c17_prune_old_refuted" Print Assumptions c17_prune_old_refuted.
+Redirect "out/C17.c17_prune_fixed_on_witness" Print Assumptions c17_prune_fixed_on_witness.
+Redirect "out/C17.c17_headermap_refines" Print Assumptions c17_headermap_refines.
+Redirect "out/C17.c17_headermap_example" Print Assumptions c17_headermap_example.
 Redirect "out/C17.c17_skip_height_spec" Print Assumptions c17_skip_height_spec.
 Redirect "out/C17.c17_skip_height_lt" Print Assumptions c17_skip_height_lt.
 Redirect "out/C17.c17_skip_height_examples" Print Assumptions c17_skip_height_examples.
